@@ -4,6 +4,19 @@ import json, os
 ROOT = os.path.dirname(os.path.abspath(__file__))
 
 CLAIMED = {
+ 'C15': dict(
+    category='other',
+    text='Symbolic execution of the real call machinery (mk_component -> mk_function / mk_operation / mk_external_entity / mk_derived_attribute, run_function / '
+         'run_operation / run_derived_attribute, invocation evaluators) on a real BridgePoint model whose bodies are overwritten per call graph: 13 call graphs '
+         '(depth 3 with equally named locals, direct and mutual recursion, parameters bound by name in permuted order, calls inside loop conditions, if conditions '
+         'and where clauses, instance operation with self, class operation, bridge of a user external entity, derived attribute re-read after its inputs changed, '
+         'bare return / no return, an operation invoking itself on self). The entry function is invoked from Python with SYMBOLIC unbounded integer arguments and '
+         'attribute values (recursion depth n in 0..4); result and final attribute values must equal the reference evaluator with call frames. Enumerator '
+         'positions and constant values are checked under every order of the S_ENUM rows and two reorderings of the whole model text.',
+    design_ref='DESIGN.md section 5, C15',
+    note='fixed list of call graphs; nested oal.parse calls and model loading run outside the tracer; CrossHair getattr patch replaced so that property getters '
+         '(derived attributes) run traced (engine/chpatch.py).',
+    technique='bounded symbolic execution of the real code (CrossHair + z3); arguments symbolic-through, differential against a reference evaluator'),
  'C04': dict(
     category='other',
     text='Symbolic execution of the real interpreter (FunctionWalker.accept over the AST produced by the real parser) against an independent reference '
